@@ -30,6 +30,11 @@ pub fn knobs(profile: &str) -> Knobs {
         "tile" => Knobs { max_wh: 7, max_layers: 3, max_frames: 2, meta: false, max_cel: 3, ..base },
         "big" => Knobs { max_wh: 24, max_layers: 6, max_frames: 4, max_cel: 24, ..base },
         "rgba" => Knobs { depths: vec![32], meta: false, tiles: false, ..base },
+        // many frames / many layers (C01: counts far beyond what the GUI corpus has)
+        // canvases up to the format maximum (nothing is rendered; dimension laws, tile lookups, accessors)
+        "huge" => Knobs { max_wh: 65535, max_layers: 3, max_frames: 2, max_cel: 3, meta: false, ..base },
+        "long" => Knobs { max_wh: 2, max_layers: 3, max_frames: 3000, max_cel: 2, tiles: false, ..base },
+        "wide" => Knobs { max_wh: 2, max_layers: 300, max_frames: 2, max_cel: 2, tiles: false, ..base },
         _ => base,
     }
 }
@@ -107,9 +112,15 @@ fn store(r: &mut StdRng) -> String {
 
 pub fn gen_sprite(r: &mut StdRng, k: &Knobs) -> Program {
     let depth = *k.depths.choose(r).unwrap();
-    let w = r.gen_range(1..=k.max_wh);
-    let h = r.gen_range(1..=k.max_wh);
-    let nframes = r.gen_range(1..=k.max_frames);
+    let dim = |r: &mut StdRng| -> u16 {
+        if k.max_wh > 1000 {
+            *[65535u16, 65534, 65533, 40000, 32768, 32767, 4097, 300, 7].choose(r).unwrap()
+        } else {
+            r.gen_range(1..=k.max_wh)
+        }
+    };
+    let (w, h) = (dim(r), dim(r));
+    let nframes = if k.max_frames > 100 { k.max_frames - r.gen_range(0..10) } else { r.gen_range(1..=k.max_frames) };
     let mut udc = 0u32;
     let mut f0: Vec<Chunk> = vec![];
     let use_tiles = k.tiles && r.gen_bool(0.5);
@@ -123,8 +134,9 @@ pub fn gen_sprite(r: &mut StdRng, k: &Knobs) -> Program {
         let style = r.gen_range(0..4);
         if style <= 1 {
             // new format, contiguous range first..last
-            let first = if r.gen_bool(0.6) { 0 } else { r.gen_range(0..200u32) };
-            let n = r.gen_range(1..=12u32).min(256 - first);
+            let hi = depth != 8 && r.gen_bool(0.2);
+            let first = if hi { r.gen_range(250..400u32) } else if r.gen_bool(0.6) { 0 } else { r.gen_range(0..200u32) };
+            let n = if hi { r.gen_range(1..=12u32) } else { r.gen_range(1..=12u32).min(256 - first) };
             let last = first + n - 1;
             pal_ids = (first..=last).collect();
             let entries = (0..n)
@@ -213,8 +225,11 @@ pub fn gen_sprite(r: &mut StdRng, k: &Knobs) -> Program {
             if tilesets.iter().any(|t| t.0 == id) {
                 continue;
             }
-            let tw = r.gen_range(1..=3u16);
-            let th = r.gen_range(1..=3u16);
+            let (tw, th) = if k.max_wh > 1000 && r.gen_bool(0.5) {
+                *[(2u16, 2u16), (255, 3), (3, 255), (16, 16), (1, 1000), (4096, 1)].choose(r).unwrap()
+            } else {
+                (r.gen_range(1..=3u16), r.gen_range(1..=3u16))
+            };
             let count = r.gen_range(1..=4u32);
             let mut px = vec![];
             for t in 0..count {
@@ -240,7 +255,7 @@ pub fn gen_sprite(r: &mut StdRng, k: &Knobs) -> Program {
     }
 
     // layers (a forest)
-    let nl = r.gen_range(1..=k.max_layers);
+    let nl = if k.max_layers > 100 { k.max_layers - r.gen_range(0..10) } else { r.gen_range(1..=k.max_layers) };
     let mut levels: Vec<u16> = vec![];
     let mut ltypes: Vec<u16> = vec![];
     let mut lts: Vec<Option<(u32, u16, u16, u32)>> = vec![];
@@ -315,8 +330,9 @@ pub fn gen_sprite(r: &mut StdRng, k: &Knobs) -> Program {
         }
         let mut raw_frames: Vec<usize> = vec![];
         let mut plan: Vec<u8> = vec![]; // 0 none, 1 data, 2 linked
+        let pcel = if nframes > 100 { 0.01 } else { 0.75 };
         for _ in 0..nframes {
-            plan.push(if r.gen_bool(0.75) { 1 } else { 0 });
+            plan.push(if r.gen_bool(pcel) { 1 } else { 0 });
         }
         for (f, p) in plan.iter().enumerate() {
             if *p == 1 {
@@ -392,7 +408,24 @@ pub fn gen_sprite(r: &mut StdRng, k: &Knobs) -> Program {
         }
     }
     let mut out_frames = vec![];
-    for (f, cels) in frames.into_iter().enumerate() {
+    for (f, mut cels) in frames.into_iter().enumerate() {
+        // the order in which a frame's cel chunks are stored is free (C02): half of the frames are not in layer order
+        if r.gen_bool(0.5) {
+            let mut groups: Vec<Vec<Chunk>> = vec![];
+            for c in cels.drain(..) {
+                if matches!(c, Chunk::Cel(_)) {
+                    groups.push(vec![c]);
+                } else if let Some(g) = groups.last_mut() {
+                    g.push(c);
+                }
+            }
+            if r.gen_bool(0.5) {
+                groups.reverse();
+            } else {
+                groups.shuffle(r);
+            }
+            cels = groups.into_iter().flatten().collect();
+        }
         let mut chunks = if f == 0 { f0.clone() } else { vec![] };
         chunks.extend(cels);
         if f == 0 {
